@@ -97,6 +97,12 @@ def unit_of(t, depth=0):
         if nm == "index" and "Entry" in t[1]:
             return "Index"
         return None
+    if k == "some":
+        # the loop variable of `for i in 0..map.len()`: the slot numbers of the map, by construction
+        from .rules_misc import is_slot_range_var
+        if is_slot_range_var(t):
+            return "Index"
+        return None
     if k == "binop" and t[1].startswith(("Add", "Sub")):
         # a neighbour of a slot is a slot (cursor - 1)
         ua, ub = unit_of(t[2], depth + 1), unit_of(t[3], depth + 1)
@@ -1089,6 +1095,20 @@ def unwrap_ok(rb, f, bi, a):
     if a[0] == "call":
         nm = a[1].split("::")[-1]
         if nm in ("get_index", "get_index_mut2", "get_index_mut") and len(a[2]) == 2:
+            from .rules_misc import is_slot_range_var
+            if is_slot_range_var(a[2][1]) and component(a[2][0]) and component(a[2][0])[0] == "map":
+                # b5: the loop variable of `for i in 0..map.len()`; the length was read before the loop, so nothing inside the
+                # loop may shorten the map (user code run there has no access to it)
+                lps = f.cfg.in_loop(bi) or []
+                body = set()
+                for lp in lps:
+                    body |= set(lp["body"])
+                fx = rb.view.fx
+                shr = [e for e in fx.events(f) if e["bb"] in body and (
+                    (e["kind"] == "mw" and e.get("mclass") in ("shrink", "clear", "retain", "replace")) or
+                    (e["kind"] == "call" and any(x.startswith("MW") for x in fx.effects.get(e["callee"], ()))))]
+                if lps and not shr:
+                    return True, "map slot: loop variable of 0..map.len(), and the map is not shortened inside the loop"
             ok, why = rb.valid(f, bi, a[2][1])
             return ok, "map slot %s" % why
         if nm in ("get_full_mut2", "get_mut", "get_full_mut", "get", "get_full") and len(a[2]) == 2 and component(a[2][0]):
@@ -1379,7 +1399,20 @@ def orderpanic_scan(view, f):
                 if y not in R:
                     R.add(y)
                     st.append(y)
-        ctrl = [s for s in R if f.blocks[s]["term"]["k"] == "switch" and any(o not in R for o in _raw_succ(f, s))
+        # the condition OF the assertion, not the conditions under which the assertion is reached: the switches with one side
+        # inside the must-panic region (every path from there ends in this panic) and another side outside it
+        A = {p}
+        grew = True
+        while grew:
+            grew = False
+            for x in R:
+                if x in A:
+                    continue
+                su = _raw_succ(f, x)
+                if su and all(o in A for o in su):
+                    A.add(x)
+                    grew = True
+        ctrl = [s for s in R if s not in A and f.blocks[s]["term"]["k"] == "switch" and any(o in A for o in _raw_succ(f, s))
                 and not _is_literal_switch(f, f.blocks[s]["term"])]
         hits = []
         seen = set()
